@@ -181,20 +181,27 @@ def ecmpPaths (cur : List Path) : List Path :=
 /-- `Vrf::can_import` -/
 def canImport (v : Vrf) (rts : List Nat) : Bool := rts.any (fun r => v.imp.contains r)
 
+/-- `if update.new_best().is_none() { vec![] } else { ecmp_paths().filter_map(|p| p.nexthop) }` -/
+def changeNhs (c : Change) : List Addr :=
+  match c.paths.head? with
+  | none => []
+  | some _ => (ecmpPaths c.paths).map (·.nh)
+
+/-- `update.new_best().is_some_and(|p| vrf.can_import(&p.attr))` -/
+def bestImports (v : Vrf) (c : Change) : Bool :=
+  match c.paths.head? with
+  | some b => canImport v b.rts
+  | none => false
+
 /-- FIB part of `TableShard::distribute_update` (with a kernel handle installed). -/
 def distribute (cfg : Cfg) (c : Change) : List Req :=
   if c.bestChanged || (c.anyChanged && c.paths.head?.isSome) then
-    let nhs := match c.paths.head? with
-      | none => []
-      | some _ => (ecmpPaths c.paths).map (·.nh)
-    Req.apply 0 c.pfx nhs ::
+    Req.apply 0 c.pfx (changeNhs c) ::
       (if c.pfx.isVpn then
         cfg.vrfs.filterMap (fun v =>
           if v.tid == 0 then none
-          else if nhs.isEmpty || (match c.paths.head? with
-                                  | some b => canImport v b.rts
-                                  | none => false)
-          then some (Req.apply v.tid c.pfx.local nhs) else none)
+          else if (changeNhs c).isEmpty || bestImports v c
+          then some (Req.apply v.tid c.pfx.local (changeNhs c)) else none)
       else [])
   else []
 
